@@ -56,7 +56,8 @@ def _run(seg_ids, mode, hits):
     args = {"fire_count": "2", "fire_period": "0", "log_msg": template}
     if mode == 0:
         args["snapshot"] = "no_collect"
-    w.install([build_trigger("tp1", "f.py", 7, args, [], [])])
+    cfg_watches = ["name", "obj.attr", "seq"] if mode == 1 else []     # the collecting tracepoint also has its own watches
+    w.install([build_trigger("tp1", "f.py", 7, args, cfg_watches, [])])
     for h in range(hits):
         w.clock.t = 10 + h
         w.event(FakeFrame("/app/f.py", "f", 7, _locals()), "line", None)
@@ -84,6 +85,8 @@ def _run(seg_ids, mode, hits):
             lw = [x for x in s.watches if x.source == "LOG"]
             if [x.expression for x in lw] != fields:
                 return "C16:snapshot-log-watches"
+            if [x.expression for x in s.watches if x.source == "WATCH"] != cfg_watches:
+                return "C16:snapshot-configured-watches"
             for x in lw:
                 if x.result is None and x.error is None:
                     return "C16:snapshot-log-watch-empty"
